@@ -2,6 +2,7 @@ package harness
 
 import (
 	"encoding/binary"
+	"encoding/json"
 	"errors"
 	"hash/fnv"
 )
@@ -209,3 +210,5 @@ func uitoa(v uint64) string {
 	}
 	return string(b[i:])
 }
+
+func jsonMarshalMsg(m *Msg) ([]byte, error) { return json.Marshal(m) }
